@@ -302,9 +302,14 @@ Definition thist (h : hist) : tok := tset (tpair tcolour tN) h.
 Definition tcache (c : cache) : tok :=
   tset (fun kh : ckey * hist => L [tnat (fst (fst kh)); tlist tN (snd (fst kh)); thist (snd kh)]) c.
 
+(** "no query modifies its input graphs": in the model every function is pure — the graph list is an argument that no function
+    returns or rebinds ([run_hist] changes it only at an [HEdit] step, which is the caller's edit).  The implementation side of this
+    observable is a flag computed by comparing every graph object with its expected value after every query. *)
+Definition inputs_unmodified : tok := tbool true.
+
 Definition run (gs : list graph) (es : list engine) (qs : list query) : tok :=
-  L (run_from has_mono (monos_g true) gs es qs [] ++ [tcache (end_cache has_mono (monos_g true) gs es qs [])]).
+  L (run_from has_mono (monos_g true) gs es qs [] ++ [tcache (end_cache has_mono (monos_g true) gs es qs []); inputs_unmodified]).
 
 Definition run_h (gs0 : list graph) (nobj : nat) (es : list engine) (hs : list hstep) : tok :=
   let r := run_hist has_mono (monos_g true) gs0 (firstn nobj gs0) es hs [] in
-  L (fst r ++ [tcache (snd r)]).
+  L (fst r ++ [tcache (snd r); inputs_unmodified]).
